@@ -532,3 +532,9 @@ _upd("C20", "Absence of panics is proved for whole expressions: the parser never
      "group or argument (developer-written tag text; validate_no_panic).",
      "its lifting through the parser's recursion to whole expressions is open (TODO-OPEN in Props/C20.lean) and is covered by the differential runs.",
      "a purely lexical description of 'no missing operand' is not given (the condition is stated on the rendering of the compiled tree).")
+_upd("C01", "The round trip is proved for every list of well-formed requests of any size (serve_roundtrip, serve_own_bytes, "
+     "serve_refines_spec): the handler sees exactly the requests that were encoded, each with its own method, target, fields, body and "
+     "trailers, in order, up to the first close; the independent strict decoder reads the same encoding back (spec_decodes_encoding).",
+     "Open: model-refines-strict-decoder theorem (checked per case).",
+     "Open: field-line spellings other than 'name: value' (no/several blanks, HTAB, obs-fold), which are compared modulo whitespace per case; "
+     "trailer sections that differ from their declaration.")
